@@ -50,7 +50,9 @@ def coord(draw):
 @st.composite
 def document(draw):
     els_all = _elements()
-    n = draw(st.one_of(st.just(1), st.integers(2, 8), st.integers(2, 30), st.integers(2, 30), st.sampled_from([130, 260, 300])))
+    n = draw(st.one_of(st.just(1), st.integers(2, 8), st.integers(2, 30)))
+    if draw(st.integers(0, 29)) == 0:
+        n = draw(st.sampled_from([130, 260, 300]))        # now and then a document with indices beyond 127 / 255
     scheme = draw(st.sampled_from(["sequential", "shuffled", "sparse", "arbitrary", "positional-trap", "zero-based", "long-prefix", "case-variants"]))
     if scheme == "sequential":
         ids = ["a%d" % (i + 1) for i in range(n)]
